@@ -108,6 +108,26 @@ def replay_maps(ctx, head, maps, lib, report, with_se):
     """spec -> code over the synthetic library.
     report(tag, key, what): tag in {'sum', 'missing', 'class', 'range', 'se'}"""
     n = 0
+    singles = dict((m['x'][0][0], m) for m in maps
+                   if len(m['x']) == 1 and fr(m['x'][0][1]) > 0 and m.get('q'))
+
+    def se_check(est, xs, q, note=''):
+        k = 0
+        for ev in head['rmse_evals']:
+            if ev['o']['k'] != 'value':
+                continue
+            T = GRID * float(fr(ev['t']))
+            exp = abs(cl.term_value(ev['o']['t'])) * math.sqrt(q)
+            k2, v, warns = call(getattr(est, cl.GETTERS[ev['p']] + '_SE'), T)
+            o, val = cl.classify(k2, v, warns)
+            k += 1
+            key = 'estimate(%s).%s_SE(%g)%s' % (xs, cl.GETTERS[ev['p']], T, note)
+            if o['k'] != 'value':
+                report('se', key, '%s -> %s; spec expects the plain number %r' % (key, o, exp))
+            elif abs(val - exp) > 2e-6 * max(1.0, abs(exp)) or val < 0:
+                report('se', key, '%s = %r; spec expects |RMSE|*sqrt(x\'Mx) = %r' % (key, val, exp))
+        return k
+
     for m in maps:
         x = m['x']
         xs = show_map(x)
@@ -130,6 +150,13 @@ def replay_maps(ctx, head, maps, lib, report, with_se):
                 report('se', 'estimate-outside-basis:' + xs,
                        'Estimate(%s) with a descriptor outside the uncertainty basis was '
                        'accepted' % xs)
+            # the refusal leaves nothing behind: an unrelated valid mapping asked next is unaffected
+            free = [g for g in sorted(singles) if g not in [a for a, _ in x]]
+            if free:
+                ms = singles[free[0]]
+                k3, est3, _ = call(lib.Estimate, pymap(ms['x']), 'thermochem')
+                if k3 == 'value':
+                    n += se_check(est3, show_map(ms['x']), float(fr(ms['q'][0])), ' [asked right after the refused %s]' % xs)
             continue
         if kind == 'error':
             report('missing', 'estimate:' + xs, 'Estimate(%s) raised %s: %s; spec expects an estimate'
@@ -161,20 +188,7 @@ def replay_maps(ctx, head, maps, lib, report, with_se):
             if abs(val - xv) > tol * max(1.0, abs(xv)):
                 report('sum', key, '%s = %r; spec expects %r' % (key, val, xv))
         if with_se and m['q']:
-            q = float(fr(m['q'][0]))
-            for ev in head['rmse_evals']:
-                if ev['o']['k'] != 'value':
-                    continue
-                T = GRID * float(fr(ev['t']))
-                exp = abs(cl.term_value(ev['o']['t'])) * math.sqrt(q)
-                k2, v, warns = call(getattr(est, cl.GETTERS[ev['p']] + '_SE'), T)
-                o, val = cl.classify(k2, v, warns)
-                n += 1
-                key = 'estimate(%s).%s_SE(%g)' % (xs, cl.GETTERS[ev['p']], T)
-                if o['k'] != 'value':
-                    report('se', key, '%s -> %s; spec expects the plain number %r' % (key, o, exp))
-                elif abs(val - exp) > 2e-6 * max(1.0, abs(exp)) or val < 0:
-                    report('se', key, '%s = %r; spec expects |RMSE|*sqrt(x\'Mx) = %r' % (key, val, exp))
+            n += se_check(est, xs, float(fr(m['q'][0])))
     return n
 
 
